@@ -97,7 +97,7 @@ def exercise(case):
         b = bigimg.build(case.get("level", "1.5"), n_, p_, case["seed"], pol=pol, scan=scan)
     else:
         b = product.build_product(level=case.get("level", "1.5"), kind=case.get("kind"), sample=case.get("sample"),
-                                  images=case["images"], seed=case["seed"], pixel_special=case.get("special", True))
+                                  images=case["images"], seed=case["seed"], pixel_special=case.get("special", True), common_descriptor=case.get("common_descriptor", False))
     out = {"case": case, "runs": []}
     opts = dict(case.get("options") or {})
     if case.get("rpc") is not None:
